@@ -1005,8 +1005,8 @@ class Terms:
         for s in sites:
             dpath = self.rd.sites[s][1]
             kind = self.rd.sites[s][2]
-            if kind != "mutref" and not _is_prefix(dpath, path):
-                # def of a sub-part of the queried place: functional update of the base value
+            if not _is_prefix(dpath, path):
+                # def (or in-place mutation) of a sub-part of the queried place: functional update of the base value
                 updates.add((dpath[len(path):], self._site_term(s, local, dpath, depth + 1)))
             else:
                 terms.add(self._site_term(s, local, path, depth + 1))
